@@ -21,7 +21,7 @@ def simple_rows(rng, n):
         if rng.random() < 0.9:
             r['a'] = rng.choice([gen.small_int(rng), gen.small_int(rng), gen.any_int(rng), gen.any_float(rng), None, True])
         if rng.random() < 0.9:
-            r['b'] = rng.choice([rng.randint(-5, 5), rng.randint(0, 3) + 0.5, 2**53, -2**53, 1e300, None])
+            r['b'] = rng.choice([rng.randint(-5, 5), rng.randint(-5, 5), rng.randint(-5, 4) + rng.choice([0.25, 0.5, 0.75]), rng.randint(-5, 4) + 0.5, 2**53, -2**53, 1e300, None])   # integers next to fractions of either sign: min/max compare Int with Float exactly
         if rng.random() < 0.7:
             r['s'] = rng.choice(gen.WORDS)
         rows.append(r)
